@@ -79,7 +79,16 @@ class PrefixSid(Attribute):
         return cls(sr_attrs=sr_attrs, packed=original)
 
     def json(self, compact: bool | None = None) -> str:
-        content: str = ', '.join(d.json() for d in self.sr_attrs)
+        # one member per TLV type: a TLV the peer repeated would repeat its key inside this object,
+        # and every reader keeps only one of the two values.  The first one is reported.
+        seen: set[int] = set()
+        members: list[str] = []
+        for d in self.sr_attrs:
+            if d.TLV in seen:
+                continue
+            seen.add(d.TLV)
+            members.append(d.json())
+        content: str = ', '.join(members)
         return f'{{ {content} }}'
 
     def __str__(self) -> str:
